@@ -37,8 +37,7 @@ def shards(tier, seed):
     n = 8 if tier == "quick" else 40
     per = 40 if tier == "quick" else 600
     out += [{"name": f"rand-{i}", "kind": "random", "count": per} for i in range(n)]
-    if tier == "thorough":
-        out += [{"name": f"stress-{i}", "kind": "stress", "count": 4} for i in range(8)]
+    out += [{"name": f"stress-{i}", "kind": "stress", "count": 1 if tier == "quick" else 4} for i in range(2 if tier == "quick" else 8)]
     return out
 
 
